@@ -1,7 +1,7 @@
 #!/bin/sh
 # usage: try.sh <patch> <fvc args...>   runs fvc against a scratch copy of /repo with the patch applied
 V=$(cd "$(dirname "$0")/.." && pwd)
-p=$1; shift
+p=$(realpath "$1"); shift
 S=$(mktemp -d /tmp/fvc-try.XXXXXX)
 mkdir -p "$S/repo"; cp -r /repo/*.go /repo/go.mod /repo/go.sum "$S/repo/"
 (cd "$S/repo" && patch -p1 -s < "$p") || { echo "patch does not apply"; rm -rf "$S"; exit 2; }
